@@ -46,6 +46,39 @@ fn main() {
 	}
 	match prop.as_str() {
 		"noop" => {},
+		"replay" => {
+			// re-judge one witness (type + bytes) with the byte-string, wire-format and round-trip monitors
+			let name = ctx.only_type.clone().expect("--type");
+			let bytes = monitor::model::unhex(&arg(&args, "--bytes").unwrap_or_default());
+			let Some(ops) = ctx.universe.iter().find(|o| o.name == name) else {
+				eprintln!("type {name} is not part of the static universe");
+				std::process::exit(3);
+			};
+			let mut rep = monitor::report::Report::new("replay");
+			println!("type  : {}", ops.name);
+			println!("bytes : {}", monitor::model::hex(&bytes));
+			let model = monitor::model::spec_decode(&ops.ty, &bytes);
+			println!("model : {:?}", model.as_ref().map(|(v, n)| (monitor::model::show_val(v), *n)));
+			if let Some(d) = &ops.dec {
+				let real = monitor::report::catch(|| (d.slice)(&bytes));
+				println!("crate : {:?}", real.as_ref().map(|(v, n)| (v.as_ref().map(monitor::model::show_val), *n)));
+				core_props::c03_bytes(ops, &bytes, "replay", &mut rep);
+			}
+			if let Ok((v, _)) = &model {
+				let val = (ops.canon)(v);
+				let (spec, marks) = monitor::model::spec_encode_marks(&ops.ty, &val);
+				let case = common::Case { val, bytes: spec, marks };
+				core_props::c01_value_pub(ops, &case, &mut rep);
+				if ops.dec.is_some() {
+					core_props::c02_value(ops, &case, &[0xAB], &mut rep, "replay");
+				}
+			}
+			println!("violations on replay: {}", rep.viol_total);
+			for v in &rep.violations {
+				println!("  {} :: {}", v.sig, v.msg);
+			}
+			std::process::exit(if rep.viol_total > 0 { 1 } else { 0 });
+		},
 		"list-types" => {
 			for o in &ctx.universe {
 				println!("{}\t{:?}", o.name, o.tags);
